@@ -24,6 +24,7 @@ from cirq.ops import (
     common_gates,
     dense_pauli_string as dps,
     gate_operation,
+    global_phase_op,
     op_tree,
     pauli_gates,
     pauli_string as ps,
@@ -363,8 +364,15 @@ class PauliStringPhasorGate(raw_types.Gate):
     def _decompose_(self, qubits: Sequence[cirq.Qid]) -> Iterator[cirq.OP_TREE]:
         if len(self.dense_pauli_string) <= 0:
             return
-        any_qubit = qubits[0]
         to_z_ops = op_tree.freeze_op_tree(self._to_z_basis_ops(qubits))
+        # Identity factors of the Pauli string take no part in the parity computation.
+        qubits = [q for q, p in zip(qubits, self.dense_pauli_string.pauli_mask) if p]
+        if not qubits:
+            # The identity string only has the +1 eigenvalue: a global phase.
+            if self.exponent_pos:
+                yield global_phase_op.global_phase_operation(1j ** (2 * self.exponent_pos))
+            return
+        any_qubit = qubits[0]
         xor_decomp = tuple(xor_nonlocal_decompose(qubits, any_qubit))
         yield to_z_ops
         yield xor_decomp
